@@ -80,6 +80,14 @@ void ezc3d::c3d::write(const std::string& filePath) const
     // Write the parameters
     this->parameters().write(f);
 
+    // The data start right after the parameters. Now that this position is known,
+    // go back to the header (word 9) and write the number (1-based) of that block
+    std::streampos dataPosition(f.tellg());
+    int dataStartBlock(static_cast<int>(dataPosition)/512 + 1);
+    f.seekg(8*ezc3d::DATA_TYPE::WORD);
+    f.write(reinterpret_cast<const char*>(&dataStartBlock), 1*ezc3d::DATA_TYPE::WORD);
+    f.seekg(dataPosition);
+
     // Write the data
     this->data().write(f);
 
